@@ -3,7 +3,7 @@
 # /repo untouched) and print one line per seed; exit 1 if any seed is no longer detected.
 cd /verif; TIER=${1:-quick}; MISS=0
 for d in seeded/*/; do
-  id=$(basename $d); prop=$(python3 -c "import json;print(json.load(open('$d/meta.json'))['breaks_property'])")
+  id=$(basename $d); prop=$(python3 -c "import json;m=json.load(open('$d/meta.json'));print(m.get('check_with') or m['breaks_property'])")
   out=$(./seedrun_overlay.sh $id $prop $TIER 2>&1)
   rc=$(echo "$out" | grep -o "rc=[0-9]*" | tail -1)
   sigs=$(echo "$out" | grep -o "sig=[^ ]*" | sort -u | tr '\n' ' ')
